@@ -416,7 +416,7 @@ ENV_GEN = ("INIT GInit", "NEXT GNext", "INVARIANT Emit", "INVARIANT Inv_C10_L2As
 
 
 def ec(**kw):
-    c = dict(MaxPrice=MAXPRICE, Ticks=(1,), StepSize=10, NLevels=2, Trading0=True, Ops=["new", "cancel", "step"],
+    c = dict(MaxPrice=MAXPRICE, Ticks=(1,), StepSize=10, T0=0, NLevels=2, Trading0=True, Ops=["new", "cancel", "step"],
              Sides=["B", "A"], Kinds=["L", "M"], Prices=[10, 11], Vols=[2], Traders=[3], ModPrices=[-1], ModVolsAbs=[-1],
              MaxSubmits=3, MaxBatch=3, MaxSteps=2, MaxOrders=3)
     c.update(kw)
@@ -426,7 +426,7 @@ def ec(**kw):
 def env_gen(ck, name, kind="env", seeds=8, need=(), timeout=600, workers=12, **kw):
     c = ec(**kw)
     rargs = ["--kind", kind, "--levels", c["NLevels"], "--ticks", ",".join(str(t) for t in c["Ticks"]), "--step", c["StepSize"],
-             "--trading", "true" if c["Trading0"] else "false", "--seeds", seeds, "--base-seed", ck.seed]
+             "--trading", "true" if c["Trading0"] else "false", "--seeds", seeds, "--base-seed", ck.seed, "--t0", c["T0"]]
     return ck.gen(name, "EnvGen", c, "replay_env", rargs, cfg=ENV_GEN, need=need, timeout=timeout, workers=workers)
 
 
@@ -482,14 +482,15 @@ def c08(tier, seed):
     env_gen(ck, "gen_env_new_cancel", kind="env", seeds=s, StepSize=3 if q else 4, MaxSubmits=4 if q else 5, MaxBatch=3 if q else 4, MaxSteps=2,
             need=("schedule_matters", "has_trade", "multi_step", "has_cancel"), timeout=400 if q else 1800)
     # modifies (several instructions for one order, orders modified in the step that creates them)
-    env_gen(ck, "gen_env_modify", kind="env", seeds=s, StepSize=3, Ops=["new", "modify", "step"], Kinds=["L"], Vols=[2], ModPrices=[-1, 10, 11],
+    # (start time 1996: not a multiple of the step size)
+    env_gen(ck, "gen_env_modify", kind="env", seeds=s, StepSize=3, T0=1996, Ops=["new", "modify", "step"], Kinds=["L"], Vols=[2], ModPrices=[-1, 10, 11],
             ModVolsAbs=[-1, 1, 3], MaxSubmits=3 if q else 4, MaxBatch=3, MaxSteps=2 if q else 3, MaxOrders=2,
             need=("schedule_matters", "has_modify", "has_trade"), timeout=400 if q else 1800)
     # multi-asset environment, trading toggled
     env_gen(ck, "gen_menv_full_batch", kind="menv", seeds=s, Ticks=(1, 1), StepSize=2, Ops=["new", "cancel", "modify", "step"], Kinds=["L", "M"],
             Prices=[10], ModPrices=[-1], ModVolsAbs=[1], MaxSubmits=4, MaxBatch=2, MaxSteps=2 if q else 3, MaxOrders=2,
             need=("schedule_matters", "has_trade", "multi_step"), timeout=400 if q else 1800)
-    env_gen(ck, "gen_menv", kind="menv", seeds=s, Ticks=(1, 2), StepSize=3, Ops=["new", "cancel", "step", "disable", "enable"], Kinds=["L"] if q else ["L", "M"],
+    env_gen(ck, "gen_menv", kind="menv", seeds=s, Ticks=(1, 2), StepSize=3, T0=7, Ops=["new", "cancel", "step", "disable", "enable"], Kinds=["L"] if q else ["L", "M"],
             Prices=[10], MaxSubmits=3, MaxBatch=3, MaxSteps=2, MaxOrders=2,
             need=("schedule_matters", "has_trade", "trading_toggled"), timeout=400 if q else 1800)
     # long random runs, batches up to 25 instructions (step sizes from 1 to 1000): schedule from the hook, linear validation
@@ -532,10 +533,10 @@ def c11(tier, seed):
     env_gen(ck, "gen_env_records", kind="env", seeds=s, NLevels=3, Ops=["new", "cancel", "step"], Kinds=["L", "M"], Prices=[10, 11, 12],
             Vols=[1, 3], MaxSubmits=3 if q else 4, MaxBatch=3, MaxSteps=3, MaxOrders=3,
             need=("multi_step", "has_trade"), timeout=400 if q else 1800)
-    env_gen(ck, "gen_menv_records", kind="menv", seeds=s, Ticks=(1, 2, 1), NLevels=1, Ops=["new", "step"], Kinds=["L"], Prices=[10, 12],
+    env_gen(ck, "gen_menv_records", kind="menv", seeds=s, Ticks=(1, 2, 1), NLevels=1, T0=13, Ops=["new", "step"], Kinds=["L"], Prices=[10, 12],
             Vols=[1, 2] if not q else [2], MaxSubmits=3, MaxBatch=3, MaxSteps=2, MaxOrders=2, need=("multi_step", "has_trade"), timeout=400 if q else 1800)
     # modifications that trade (re-priced across the touch): their volume belongs to the step's traded volume
-    env_gen(ck, "gen_env_records_modify", kind="env", seeds=s, NLevels=2, Ops=["new", "modify", "step"], Kinds=["L"], Prices=[10, 11], Vols=[1, 2],
+    env_gen(ck, "gen_env_records_modify", kind="env", seeds=s, NLevels=2, T0=1001, Ops=["new", "modify", "step"], Kinds=["L"], Prices=[10, 11], Vols=[1, 2],
             ModPrices=[10, 11], ModVolsAbs=[-1], MaxSubmits=3 if q else 4, MaxBatch=2, MaxSteps=3, MaxOrders=2,
             need=("multi_step", "has_trade", "has_modify"), timeout=400 if q else 1800)
     env_gen(ck, "gen_menv_records_modify", kind="menv", seeds=s, Ticks=(1, 1), NLevels=2, Ops=["new", "modify", "step"], Kinds=["L"], Prices=[10, 11], Vols=[1],
@@ -571,7 +572,7 @@ def c14(tier, seed):
             ModPrices=[10, 11], ModVolsAbs=[-1], MaxSubmits=3, MaxBatch=2, MaxSteps=2 if q else 3, MaxOrders=2,
             need=("has_modify", "multi_step"), timeout=400 if q else 1800)
     # shuffled batches across assets
-    env_gen(ck, "gen_menv_assets", kind="menv", seeds=8 if q else 32, Ticks=(1, 2), Ops=["new", "cancel", "step"], Kinds=["L", "M"], Prices=[10, 12],
+    env_gen(ck, "gen_menv_assets", kind="menv", seeds=8 if q else 32, Ticks=(1, 2), T0=5, Ops=["new", "cancel", "step"], Kinds=["L", "M"], Prices=[10, 12],
             MaxSubmits=3 if q else 4, MaxBatch=3, MaxSteps=2, MaxOrders=2, need=("schedule_matters", "has_trade"), timeout=400 if q else 1800)
     # long random histories of direct operations on markets of 1..4 assets (per-asset ticks, reloads, toggles)
     mkt_traces(ck, "rand_market", files=6 if q else 48, runs=3 if q else 6, ops=200)
@@ -606,23 +607,25 @@ def c09(tier, seed):
     t0 = time.time()
     outs = {}
     procs = []
-    for tag, prog, shift in (("A", "false", 0), ("B", "false", 0), ("C", "true", 0), ("D", "false", 1), ("E", "false", 1 << 32)):
+    for tag, prog, shift, order in (("A", "false", 0, "given"), ("B", "false", 0, "given"), ("C", "true", 0, "given"), ("D", "false", 1, "given"),
+                                    ("E", "false", 1 << 32, "given"), ("F", "false", 0, "reverse-twice")):
         outs[tag] = os.path.join(d, tag + ".ndjson")
-        # separate OS processes (own address space, own hash seeds, own start time)
+        # separate OS processes (own address space, own hash seeds, own start time); process F runs the configurations in
+        # reverse order and each twice in a row, reporting the second run ("in the same process or a different one")
         procs.append((tag, subprocess.Popen([os.path.join(core.BIN, "sim_run"), "--configs", cf, "--out", outs[tag], "--progress", prog,
-                                             "--seed-shift", str(shift)], stdout=subprocess.DEVNULL, stderr=subprocess.PIPE, text=True)))
+                                             "--seed-shift", str(shift), "--order", order], stdout=subprocess.DEVNULL, stderr=subprocess.PIPE, text=True)))
     for tag, p in procs:
         _, err = p.communicate()
         if p.returncode != 0:
             ck.violation("runs", "simulation process %s aborted: %s" % (tag, err[-600:]), {"kind": "panic", "configs": configs, "process": tag})
     if not ck.violations:
         tl, text = core.tlc_check("C09_eq", "SimEq", {}, ["SPECIFICATION Spec", "INVARIANT Verdict"], workers=1, timeout=900,
-                                  env_extra={"TRACE": outs["A"], "TRACE2": outs["B"], "TRACE3": outs["C"], "TRACE4": outs["D"], "TRACE5": outs["E"],
+                                  env_extra={"TRACE": outs["A"], "TRACE2": outs["B"], "TRACE3": outs["C"], "TRACE4": outs["D"], "TRACE5": outs["E"], "TRACE6": outs["F"],
                                              "JAVA_TOOL_OPTIONS": "-Xss1g -Xmx8g"})
         rej = core.tagged_lines(text, "TRACE-REJECT")
         acc = core.tagged_lines(text, "ACCEPTED")
         if rej:
-            ck.violation("runs", "simulation outputs: %s (first differing line A/B %s, A/C %s)" % (rej[0].get("why"), rej[0].get("at_AB"), rej[0].get("at_AC")),
+            ck.violation("runs", "simulation outputs: %s (first differing line A/B %s, A/C %s, A/F %s)" % (rej[0].get("why"), rej[0].get("at_AB"), rej[0].get("at_AC"), rej[0].get("at_AF")),
                          {"kind": "simeq", "reject": rej[0], "configs": configs})
         elif not acc:
             raise ToolError("C09: TLC failed comparing simulation outputs:\n" + text[-2500:])
@@ -634,16 +637,16 @@ def c09(tier, seed):
         ck.states += tl["distinct"]
         ck.transitions += nlines if isinstance(nlines, int) else 0
         ck.features["output_lines_compared"] = nlines if isinstance(nlines, int) else 0
-    ck.traces += 5 * len(configs)
+    ck.traces += 6 * len(configs)
     ck.features["configurations"] = len(configs)
     # the runs are behaviours of the specification at all: complete simulations recorded from inside sim_runner /
     # market_sim_runner (both progress-bar branches) validated event by event against SimTrace.tla
     sim_traces(ck, "sim_traces", files=6 if q else 48, runs=4 if q else 8, steps=40 if q else 120)
-    ck.samples.append({"stage": "runs", "kind": "one configuration (run as 5 separate OS processes)", "case": configs[0]})
-    ck.stages.append({"stage": "runs", "kind": "5 OS processes x %d configurations through sim_runner / market_sim_runner with derive-macro agent sets; TLC compares outputs line by line" % len(configs),
+    ck.samples.append({"stage": "runs", "kind": "one configuration (run as 6 separate OS processes)", "case": configs[0]})
+    ck.stages.append({"stage": "runs", "kind": "6 OS processes (one of them running every configuration twice, in reverse order) x %d configurations through sim_runner / market_sim_runner with derive-macro agent sets; TLC compares outputs line by line" % len(configs),
                       "configurations": len(configs), "wall_s": round(time.time() - t0, 1)})
     ck.assumptions.append("a nondeterminism source that happens to be stable across the repeated processes on this machine is not seen (DESIGN.md section 8)")
-    log("[runs] %d configurations x 5 processes, %s output lines compared by TLC" % (len(configs), ck.features.get("output_lines_compared")))
+    log("[runs] %d configurations x 6 processes, %s output lines compared by TLC" % (len(configs), ck.features.get("output_lines_compared")))
     return ck.finish("model_checking", "TLC compares complete simulation outputs (orders, trades, recorded level-2 history, per-step volume) of repeated runs in "
                      "separate OS processes, with and without the progress bar, line by line, and requires shifted seeds to give different runs; the "
                      "behaviours themselves are constrained by the specification through C08 (steps) and C16 (agents).",
